@@ -1,1 +1,138 @@
-Theorem placeholder : True. Proof. exact I. Qed.
+(* C18 — Reference lookup and iteration match git.
+   Only statements here; every proof is [exact <lemma>].
+   Model.v: the sorted directory walk (gix-features cmp_entry_names, as fixed), SortedLoosePaths,
+   packed iteration, the LooseThenPacked overlay, try_find's lookup rules (as fixed).
+   Spec.v: git's view — a finite map name -> value, loose over packed; ref_rev_parse_rules.
+   [bytes_cmp] is the unsigned lexicographic byte order (memcmp then length), [blt a b] := bytes_cmp a b = Lt.
+   [fname f] is the slash-joined path of a file given by its components.
+   [files_wf]: components are non-empty and contain no '/', no path occurs twice.
+   [klt key]: strictly ascending by [key]; [StronglySorted]: every element is below all later ones. *)
+From Coq Require Import List Sorted Permutation.
+From GixV.Base Require Import Bytes BytesFacts Outcome.
+From GixV.C18 Require Import Validate Model Spec ProofsOrder ProofsMerge ProofsIter ProofsFind.
+Import ListNotations.
+
+(* Two different entries x, y of one directory (dx, dy: is a directory; rx, ry: anything below them,
+   nothing below a file): comparing the entries as the fixed walk does is comparing every pair of
+   paths through them by bytes.  This is why a directory must sort as if its name ended in '/'. *)
+Theorem entry_order_is_path_order : forall x y dx dy rx ry,
+  noslash x = true -> noslash y = true -> x <> y ->
+  (dx = false -> rx = []) -> (dy = false -> ry = []) ->
+  bytes_cmp (x ++ (if dx then slash :: rx else [])) (y ++ (if dy then slash :: ry else []))
+  = cmp_entry_names x dx y dy.
+Proof. exact entry_cmp_ext. Qed.
+
+(* the order in which the traversal reaches two files is the byte order of their full paths *)
+Theorem traversal_order_is_byte_order : forall xs ys,
+  forallb comp_wf xs = true -> forallb comp_wf ys = true ->
+  path_cmp xs ys = bytes_cmp (join xs) (join ys).
+Proof. exact path_cmp_join. Qed.
+
+(* the loose walk below any root yields exactly the files below it, strictly ascending by full name *)
+Theorem walk_sorted_by_full_name : forall root files, files_wf files ->
+  StronglySorted (klt fname) (walk root files) /\
+  Permutation (filter (under root) files) (walk root files).
+Proof. intros root files H. split; [apply walk_strict; exact H|apply walk_perm]. Qed.
+
+(* ... and so does SortedLoosePaths, which keeps the valid names (and those with the prefix) *)
+Theorem loose_paths_sorted : forall root prefix files, files_wf files ->
+  StronglySorted (klt fname) (sorted_loose root prefix files) /\
+  (forall f, In f (sorted_loose root prefix files) <->
+     In f files /\ under root f = true /\
+     (match prefix with Some p => starts_with (fname f) p | None => true end && name_ok (fname f)) = true).
+Proof. intros root prefix files H. split; [apply sorted_loose_strict; exact H|intros f; apply sorted_loose_in]. Qed.
+
+(* the overlay of two strictly sorted streams is strictly sorted (ascending, no name twice) and
+   contains exactly the loose entries plus the packed entries whose name is not loose *)
+Theorem overlay_merge_correct : forall (V : Type) (l p : list (bytes * V)),
+  SSorted l -> SSorted p ->
+  SSorted (merge l p) /\ NoDup (names (merge l p)) /\
+  (forall e, In e (merge l p) <-> In e l \/ (In e p /\ ~ In (fst e) (names l))).
+Proof.
+  intros V l p Hl Hp. split; [apply merge_sorted; assumption|].
+  split; [apply ssorted_nodup, merge_sorted; assumption|].
+  intros e. split.
+  - apply merge_only; assumption.
+  - intros [H|[H Hn]]; [apply merge_loose_in; exact H|apply merge_packed_in; assumption].
+Qed.
+
+(* iter().all() over any well-formed tree and any strictly sorted packed-refs: every reference exactly
+   once, ascending by full name, the loose value when both exist (broken loose files appear as the
+   error item of their name) *)
+Theorem iter_all_is_sorted_union : forall files packed,
+  files_wf files -> StronglySorted (klt fst) packed ->
+  let m := all_entries files packed in
+  iter_all files (Some packed) = map snd m /\
+  SSorted m /\ NoDup (names m) /\
+  (forall n i, In (n, i) m <->
+     loose_has files n i \/ (packed_has packed n i /\ ~ exists j, loose_has files n j)).
+Proof. exact L_iter_all_sorted_union. Qed.
+
+Theorem iter_all_without_packed_refs : forall files,
+  iter_all files None = map snd (all_entries files []).
+Proof. exact iter_all_no_packed. Qed.
+
+(* try_find of a short name is git's ref_rev_parse_rules, first hit wins — for names outside the
+   known class find-fullname-fallback, when nothing of that name lies in the git dir itself, loose
+   files parse and packed-refs holds what git packs *)
+Theorem dwim_is_git_except_known : forall files dirs packed name,
+  (exists n', ref_name_partial name = Ok n') ->
+  (exists n', ref_name_partial (name ++ slash :: bs "HEAD") = Ok n') ->
+  known_fullname_fallback name = false ->
+  resolve_good files packed name = None ->
+  (forall f, In f files -> parse_loose (snd f) <> None) ->
+  packed_ok packed ->
+  find files dirs (Some packed) name = Ok (spec_dwim files packed name).
+Proof. exact L_dwim_short_names. Qed.
+
+(* inside the known class the statement is false: try_find("FOO") with only refs/FOO present *)
+Theorem dwim_is_git_refuted :
+  exists files dirs packed name,
+    (exists n', ref_name_partial name = Ok n') /\
+    (forall f, In f files -> parse_loose (snd f) <> None) /\ packed_ok packed /\
+    resolve_good files packed name = None /\
+    known_fullname_fallback name = true /\
+    find files dirs (Some packed) name <> Ok (spec_dwim files packed name).
+Proof. exact L_dwim_refuted. Qed.
+
+(* ---- non-vacuity ------------------------------------------------------------------------- *)
+
+(* the witness of the defect: directory `a` against file `a-b`.  By file name `a` comes first (what the
+   code did), by path `a-b` < `a/c` *)
+Example dir_sorts_after_dash :
+  bytes_cmp (bs "a") (bs "a-b") = Lt /\ cmp_entry_names (bs "a") true (bs "a-b") false = Gt /\
+  bytes_cmp (bs "refs/heads/a-b") (bs "refs/heads/a/c") = Lt.
+Proof. repeat split. Qed.
+
+Definition ex_tree : list file :=
+  [([bs "refs"; bs "heads"; bs "a"; bs "c"], bs "1111111111111111111111111111111111111111");
+   ([bs "HEAD"], bs "ref: refs/heads/main");
+   ([bs "refs"; bs "heads"; bs "a-b"], bs "1111111111111111111111111111111111111111");
+   ([bs "refs"; bs "heads"; bs "a0"], bs "garbage")].
+Definition ex_pack : list prec :=
+  [(bs "refs/heads/a-b", (bs "2222222222222222222222222222222222222222", None));
+   (bs "refs/tags/t", (bs "2222222222222222222222222222222222222222", Some (bs "1111111111111111111111111111111111111111")))].
+
+Example ex_tree_wf : files_wf ex_tree /\ StronglySorted (klt fst) ex_pack.
+Proof.
+  split; [split|].
+  - repeat constructor.
+  - cbn. repeat constructor; cbn; intuition discriminate.
+  - repeat constructor.
+Qed.
+
+Example ex_iter_all :
+  map (fun i => match i with inl r => rname r | inr (ReferenceCreation p) => p end)
+      (iter_all ex_tree (Some ex_pack))
+  = [bs "refs/heads/a-b"; bs "refs/heads/a/c"; bs "refs/heads/a0"; bs "refs/tags/t"].
+Proof. reflexivity. Qed.
+
+Example ex_dwim :
+  find ex_files [bs "refs"; bs "refs/heads"] (Some ex_packed) (bs "main")
+  = Ok (spec_dwim ex_files ex_packed (bs "main")) /\
+  known_fullname_fallback (bs "main") = false /\ packed_ok ex_packed /\
+  option_map rname (spec_dwim ex_files ex_packed (bs "main")) = Some (bs "refs/tags/main").
+Proof.
+  repeat split.
+  intros r [<-|[<-|[]]]; reflexivity.
+Qed.
